@@ -46,6 +46,14 @@ pub struct Elem {
     pub inline: Option<(String, String, String)>,
     #[serde(default)]
     pub children: Vec<Node>,
+    /// an inline element sharing a wrapper line of this unwrap-block element:
+    /// (true = on the closing wrapper line, false = on the opening one)
+    #[serde(default)]
+    pub wrapper_inline: Option<(bool, Box<Elem>)>,
+    /// carries the unwrap-block attribute but has no wrapper lines and at most one
+    /// line between its tags: can never be unwrapped (its children are still cleaned)
+    #[serde(default)]
+    pub unwrap_degenerate: bool,
 }
 
 #[derive(Clone, Debug, Serialize, Deserialize, PartialEq)]
@@ -133,7 +141,7 @@ impl Elem {
             v.push(attr("name", a));
         }
         v.push(format!("c={}e{}{}", q, self.id, q));
-        if self.unwrap.is_some() {
+        if self.unwrap.is_some() || self.unwrap_degenerate {
             v.push("unwrap-block".to_string());
         }
         if self.skip {
@@ -176,6 +184,12 @@ impl Elem {
         }
     }
 
+    /// open tag + body + close tag of an inline element, without indentation, prefix or suffix
+    fn inline_core(&self, doc: &Doc) -> String {
+        let body = self.inline.as_ref().map(|x| x.1.as_str()).unwrap_or("");
+        format!("{}{}{}", self.open_tag(doc), body, self.close_tag(doc))
+    }
+
     fn close_tag(&self, doc: &Doc) -> String {
         let tight_ok = doc.ds.ends_with('<') && doc.de.starts_with('>');
         let sp = if self.style & 2 != 0 || !tight_ok { " " } else { "" };
@@ -200,11 +214,21 @@ fn render_nodes(doc: &Doc, nodes: &[Node], out: &mut Vec<String>) {
                         }
                     }
                     if let Some((w, _)) = &e.unwrap {
-                        out.push(w.clone());
+                        match &e.wrapper_inline {
+                            Some((false, x)) => out.push(format!("{} {}", w, x.inline_core(doc))),
+                            _ => out.push(w.clone()),
+                        }
                     }
                     render_nodes(doc, &e.children, out);
                     if let Some((_, w)) = &e.unwrap {
-                        out.push(w.clone());
+                        match &e.wrapper_inline {
+                            Some((true, x)) => {
+                                let t = w.trim_start();
+                                let lead = &w[..w.len() - t.len()];
+                                out.push(format!("{}{} {}", lead, x.inline_core(doc), t));
+                            }
+                            _ => out.push(w.clone()),
+                        }
                     }
                     out.push(format!("{}{}", e.indent, e.close_tag(doc)));
                 }
@@ -229,6 +253,9 @@ impl Doc {
             for n in nodes {
                 if let Node::Elem(e) = n {
                     out.push(e);
+                    if let Some((_, x)) = &e.wrapper_inline {
+                        out.push(x);
+                    }
                     walk(&e.children, out);
                 }
             }
@@ -243,6 +270,9 @@ impl Doc {
             for n in nodes {
                 if let Node::Elem(e) = n {
                     out.push(e as *mut Elem);
+                    if let Some((_, x)) = &mut e.wrapper_inline {
+                        out.push(&mut **x as *mut Elem);
+                    }
                     walk(&mut e.children, out);
                 }
             }
@@ -335,7 +365,15 @@ impl Doc {
                 e.indent.clear();
                 c
             }));
-            variants.push(Box::new(|e| e.unwrap.take().is_some()));
+            variants.push(Box::new(|e| e.wrapper_inline.take().is_some()));
+            variants.push(Box::new(|e| std::mem::take(&mut e.unwrap_degenerate)));
+            variants.push(Box::new(|e| {
+                let had = e.unwrap.take().is_some();
+                if had {
+                    e.wrapper_inline = None;
+                }
+                had
+            }));
             variants.push(Box::new(|e| {
                 if let Some((a, b)) = &mut e.unwrap {
                     let c = a != "{" || b != "}";
@@ -420,6 +458,7 @@ impl Doc {
                 Node::Line(s) => ok(s),
                 Node::Elem(e) => {
                     e.unwrap.as_ref().map_or(true, |(a, b)| ok(a) && ok(b))
+                        && e.wrapper_inline.as_ref().map_or(true, |(_, x)| x.inline.as_ref().map_or(true, |(a, b, c)| ok(a) && ok(b) && ok(c)))
                         && e.inline.as_ref().map_or(true, |(a, b, c)| ok(a) && ok(b) && ok(c))
                         && walk(doc, &e.children)
                 }
@@ -441,6 +480,8 @@ pub struct GenParams<'a> {
     /// pool of marker names
     pub names: &'a [Option<AttrVal>],
     pub allow_unwrap: bool,
+    /// inline elements on unwrap wrapper lines, and unwrap-blocks that can never be unwrapped
+    pub allow_wrapper_layouts: bool,
     pub allow_inline: bool,
     pub allow_multiline_tag: bool,
     pub allow_other: bool,
@@ -490,6 +531,42 @@ impl<'a, 'b> DocGen<'a, 'b> {
         v
     }
 
+    /// A default-strategy element written on one line.  `free`: with random prefix/suffix text
+    /// (otherwise bare, for use on a wrapper line).
+    fn inline_elem(&mut self, indent: &str, ds: &str, de: &str, free: bool) -> Option<Elem> {
+        let id = self.next_id;
+        self.next_id += 1;
+        let kind = if self.rng.chance(self.p.tl_eighths, 8) { Kind::Tl } else { Kind::Rm };
+        let (to, name) = match kind {
+            Kind::Tl => (self.rng.pick(self.p.tos).clone(), None),
+            _ => (None, self.rng.pick(self.p.names).clone()),
+        };
+        let (pre, suf) = if free {
+            (self.rng.pick(&["", "a ", "foo(); "]).to_string(), self.rng.pick(&["", " c", " // tail"]).to_string())
+        } else {
+            (String::new(), String::new())
+        };
+        let body = self.rng.pick(&["b", " inner ", "warn()", "テキスト", ""]).to_string();
+        let ok = |s: &str| !s.contains(ds) && !s.contains(de);
+        if !(ok(&pre) && ok(&body) && ok(&suf)) {
+            return None;
+        }
+        Some(Elem {
+            id,
+            kind,
+            to,
+            name,
+            skip: self.p.allow_skip && self.rng.chance(1, 12),
+            unwrap: None,
+            indent: indent.to_string(),
+            style: self.rng.below(32) as u8,
+            inline: Some((pre, body, suf)),
+            children: vec![],
+            wrapper_inline: None,
+            unwrap_degenerate: false,
+        })
+    }
+
     fn elem(&mut self, depth: usize, parent_indent: &str, ds: &str, de: &str) -> Elem {
         let id = self.next_id;
         self.next_id += 1;
@@ -524,7 +601,20 @@ impl<'a, 'b> DocGen<'a, 'b> {
             style |= 0x40;
         }
         let skip = self.p.allow_skip && self.rng.chance(1, 12);
-        let mut e = Elem { id, kind, to, name, skip, unwrap: None, indent: indent.clone(), style, inline: None, children: vec![] };
+        let mut e = Elem {
+            id,
+            kind,
+            to,
+            name,
+            skip,
+            unwrap: None,
+            indent: indent.clone(),
+            style,
+            inline: None,
+            children: vec![],
+            wrapper_inline: None,
+            unwrap_degenerate: false,
+        };
         if inline {
             let pre = self.rng.pick(&["", "a ", "foo(); ", "値 "]).to_string();
             let body = self.rng.pick(&["b", " inner ", "<b>x</b>", "テキスト", ""]).to_string();
@@ -536,6 +626,23 @@ impl<'a, 'b> DocGen<'a, 'b> {
             }
         }
         let inner_indent = if unwrap || self.rng.chance(1, 2) { format!("{}  ", indent) } else { indent.clone() };
+        if unwrap && self.p.allow_wrapper_layouts && self.rng.chance(1, 6) {
+            // an unwrap-block that can never be unwrapped: no wrapper lines, at most one line inside
+            e.unwrap_degenerate = true;
+            match self.rng.below(3) {
+                0 => {}
+                1 => e.children = vec![Node::Line(self.line(&inner_indent, ds, de))],
+                _ => {
+                    if self.budget > 0 {
+                        self.budget -= 1;
+                        if let Some(x) = self.inline_elem(&inner_indent, ds, de, true) {
+                            e.children = vec![Node::Elem(x)];
+                        }
+                    }
+                }
+            }
+            return e;
+        }
         if unwrap {
             let (a, b) = self.rng.pick(WRAPPERS);
             let wi = if self.rng.chance(4, 5) { indent.clone() } else { self.rng.pick(INDENTS).to_string() };
@@ -546,6 +653,12 @@ impl<'a, 'b> DocGen<'a, 'b> {
                 e.unwrap = Some((format!("{}{{", wi), format!("{}}}", wi)));
             }
             e.children = self.nodes(depth + 1, &inner_indent, ds, de, 0, 4);
+            if self.p.allow_wrapper_layouts && self.budget > 0 && self.rng.chance(1, 5) {
+                self.budget -= 1;
+                if let Some(x) = self.inline_elem("", ds, de, false) {
+                    e.wrapper_inline = Some((self.rng.chance(1, 2), Box::new(x)));
+                }
+            }
         } else {
             e.children = self.nodes(depth + 1, &inner_indent, ds, de, 0, 3);
         }
